@@ -271,6 +271,13 @@ std::vector<Scn> scenarios()
     {"timed", 1, {{"P", "TT"}, {"C", "DD"}}},
     {"timed_close", 1, {{"P", "qT"}, {"C", "D"}, {"X", "x"}}},
     {"size_probe", 1, {{"P", "qq"}, {"C", "dd"}, {"S", "ss"}}},
+    // every taking operation must wake a blocked producer, every putting operation a blocked consumer
+    {"trydeq_wakes_producer", 1, {{"P", "qq"}, {"C", "yd"}}},
+    {"timeddeq_wakes_producer", 1, {{"P", "qq"}, {"C", "Dd"}}},
+    {"tryput_wakes_consumer", 1, {{"P", "tq"}, {"C", "dd"}}},
+    {"timedput_wakes_consumer", 1, {{"P", "Tq"}, {"C", "dd"}}},
+    {"mv_tryput_wakes_consumer", 1, {{"P", "uQ"}, {"C", "dd"}}},
+    {"mv_timedput_wakes_consumer", 1, {{"P", "UQ"}, {"C", "dd"}}},
     // the same shapes through the rvalue (move) overloads
     {"mv_p_full_close", 1, {{"P", "QQ"}, {"X", "x"}}},
     {"mv_p2_c2_cap1", 1, {{"P", "QQ"}, {"C", "dd"}}},
